@@ -99,8 +99,8 @@ def main():
         if not audit['ok']:
             broken.append({'what': 'proof-audit', 'name': '; '.join(audit['problems'])[:1500]})
     else:
-        # find which module failed
-        import re
+        # find which module failed   (`re` is the module-level import: a local `import re` here made `re` a local of main()
+        # and the translator-error branch above died with UnboundLocalError instead of reporting the broken tie)
         failed = re.findall(r'error: ([^\n]*)', llog)
         # the driver may still be usable from a previous build only if its own modules built
         broken.append({'what': 'proof-obligation', 'name': 'lake build ' + ' '.join(mods), 'log': llog[-3000:], 'errors': failed[:10]})
